@@ -19,6 +19,7 @@ PID = 'C16'
 QueryError = sut.QueryError
 _DEC = {}
 _Q = DataQuerent(NodePathParser())
+_Q0 = DataQuerent(NodePathParser(bare_id_matches_all=False))
 
 
 def decoder(kind='plain'):
@@ -43,7 +44,7 @@ def gen_slice(ch, n_same):
     if k == 'rev':
         return '[::-1]', ('slice', None, None, -1)
     if k == 'all':
-        return '[:]', ('slice', None, None, None)
+        return ch.choice(['[:]', '[::]', '[ : ]']), ('slice', None, None, None)
     a = ch.int(-hi, hi) if ch.bool(2, 3) else None
     b = ch.int(-hi, hi + 1) if ch.bool(2, 3) else None
     if k == 'ab':
@@ -299,6 +300,29 @@ def check_paths(out, what, msg, nj, labels, flat_values, qc, n):
                 out.fail('%s: list nesting of the result does not mirror the replications traversed' % what, expr=expr,
                          subset=i, got=g, expected=w)
                 break
+        # the same path through a querent whose parser was built with bare_id_matches_all=False (documented option): a
+        # component -- and the subset selector -- without a slice then stands for the first match only; an explicit slice,
+        # "[:]" and "[::]" included, means what it says
+        if what.startswith('plain'):
+            sspec0 = sspec if sspec is not None else ('idx', 0)
+            comps0 = [(c[0], c[1], c[2] if c[2] is not None else ('idx', 0)) for c in comps]
+            try:
+                subs0 = expected_subsets(sspec0, n)
+                want0 = [pathref.evaluate(nj[i], comps0) for i in subs0]
+            except pathref.NotEvaluable:
+                want0 = None
+            o0 = sut.call(lambda: _Q0.query(msg, expr)) if want0 is not None else None
+            if o0 is not None and o0.ok:
+                out.classes.append('first_match_parser_option')
+                got0 = sut.norm_json(o0.value.all_values())
+                if list(o0.value.subset_indices()) != subs0:
+                    out.fail('%s: parser option bare_id_matches_all=False: wrong subsets selected' % what, expr=expr,
+                             got=list(o0.value.subset_indices()), expected=subs0)
+                elif [pathref.flatten(g) for g in got0] != [pathref.flatten(w) for w in want0]:
+                    out.fail('%s: parser option bare_id_matches_all=False: result differs from the evaluation of the path (no slice = '
+                             'first match, explicit slices as written)' % what, expr=expr, got=got0, expected=want0)
+            elif o0 is not None and not isinstance(o0.exc, QueryError):
+                out.fail('%s: parser option bare_id_matches_all=False: query raised %s@%s' % (what, o0.exc_type, o0.frame), expr=expr, error=o0.msg)
         if any(c[2] is not None and c[2][0] == 'slice' and c[2][3] is not None and c[2][3] < 0 for c in comps):
             out.classes.append('negative_step_slice')
         if any(c[0] == '.' for c in comps):
